@@ -38,7 +38,11 @@ use crate::math::num::RealNumber;
 #[cfg(feature = "serde")]
 use serde::{Deserialize, Serialize};
 
+#[cfg(not(smartcore_verif))]
 pub(crate) mod bbd_tree;
+#[cfg(smartcore_verif)]
+#[allow(missing_docs)]
+pub mod bbd_tree;
 /// tree data structure for fast nearest neighbor search
 pub mod cover_tree;
 /// very simple algorithm that sequentially checks each element of the list until a match is found or the whole list has been searched.
